@@ -18,8 +18,9 @@ per channel, per connection list), then asks for round trips:
     conn <id> <d|s> <i|o> <child> <chan> (<child> <chan>)*   one connection list of composite <id>
     build <id>            current graph := the tree below <id>, a root
     descend <label>       current graph := that child, to be pickled on its own
-    pickle <r> <f> <p> <k>    round trip with Cfg ⟨revIter, firing, pushLinks, keepCache⟩; prints the observation
-    fileload <r> <f> <p> <k> [cls]
+    pickle <r> <f> <p> <k> <x> <o>   round trip with Cfg ⟨revIter, firing, pushLinks, keepCache⟩, x = foreign
+                          connections are not stored, o = load() takes the channels over; prints the observation
+    fileload <r> <f> <p> <k> <x> <o> [cls]
 -/
 
 structure Row where
@@ -38,8 +39,10 @@ structure St where
   rows : List Row
   conns : List ConnRow
   cur : Option (Node × Option Path)
+  /-- the current graph came out of the pinned `Node.load`: its channels belong to a twin -/
+  haunted : Bool
 
-def init : St := ⟨[], [], none⟩
+def init : St := ⟨[], [], none, false⟩
 
 def emptyCore (label cls : Nat) (kind : Kind) : Core :=
   { label, cls, kind, ins := [], outs := [], sigIns := [], sigOuts := [], received := [], running := false,
@@ -132,9 +135,24 @@ def parseCfg (r f p k : String) : Option Cfg :=
   | some r, some f, some p, some k => some ⟨r, f, p, k⟩
   | _, _, _, _ => none
 
-def finish (s : St) : Except Err Node → St × List String
-  | .ok n => ({ s with cur := some (n, none) }, showNode [] n)
+def finish (s : St) (haunted : Bool) : Except Err Node → St × List String
+  | .ok n => ({ s with cur := some (n, none), haunted := haunted }, showNode [] n)
   | .error e => ({ s with cur := none }, [s!"error {showErr e}"])
+
+/-- one round trip of the current graph; `x` = connections to non-siblings are not stored,
+`o` = `Node.load` takes the channels over (no twin) -/
+def roundTrip (s : St) (cfg : Cfg) (x o : Bool) (file : Bool) (cls : Option Nat) : St × List String :=
+  match s.cur with
+  | none => (s, ["bad-op"])
+  | some (n, pp) =>
+    let n := if x then closeUp n else n
+    let twinOk : Except Err Unit :=
+      if s.haunted then (match load cfg (twinOf n) with | .error e => .error e | .ok _ => .ok ()) else .ok ()
+    match twinOk with
+    | .error e => finish s false (.error e)
+    | .ok _ =>
+      if file then finish s (!o) (fileLoad cfg (cls.getD n.core.cls) (save pp n))
+      else finish s s.haunted (load cfg (save pp n))
 
 def chanOp (s : St) (io : String) (id label val strict : String) : St × List String :=
   let bad : St × List String := (s, ["bad-op"])
@@ -219,7 +237,7 @@ def step (s : St) (ws : List String) : St × List String :=
   | "det" :: id :: ls => listOp s "det" id ls
   | ["build", id] =>
     match id.toNat?.bind (buildNode s) with
-    | some n => ({ s with cur := some (n, none) }, ["built"])
+    | some n => ({ s with cur := some (n, none), haunted := false }, ["built"])
     | none => bad
   | ["descend", l] =>
     match l.toNat?, s.cur with
@@ -228,18 +246,18 @@ def step (s : St) (ws : List String) : St × List String :=
       | some n => ({ s with cur := some (n, some (lexPath (c.forState pp).detached c.label)) }, ["descended"])
       | none => bad
     | _, _ => bad
-  | ["pickle", r, f, p, k] =>
-    match parseCfg r f p k, s.cur with
-    | some cfg, some (n, pp) => finish s (load cfg (save pp n))
-    | _, _ => bad
-  | ["fileload", r, f, p, k] =>
-    match parseCfg r f p k, s.cur with
-    | some cfg, some (n, pp) => finish s (fileLoad cfg n.core.cls (save pp n))
-    | _, _ => bad
-  | ["fileload", r, f, p, k, cls] =>
-    match parseCfg r f p k, cls.toNat?, s.cur with
-    | some cfg, some cls, some (n, pp) => finish s (fileLoad cfg cls (save pp n))
+  | ["pickle", r, f, p, k, x, o] =>
+    match parseCfg r f p k, parseBool x, parseBool o with
+    | some cfg, some x, some o => roundTrip s cfg x o false none
     | _, _, _ => bad
+  | ["fileload", r, f, p, k, x, o] =>
+    match parseCfg r f p k, parseBool x, parseBool o with
+    | some cfg, some x, some o => roundTrip s cfg x o true none
+    | _, _, _ => bad
+  | ["fileload", r, f, p, k, x, o, cls] =>
+    match parseCfg r f p k, parseBool x, parseBool o, cls.toNat? with
+    | some cfg, some x, some o, some cls => roundTrip s cfg x o true (some cls)
+    | _, _, _, _ => bad
   | _ => bad
 
 def main : IO Unit := Proto.run init step
